@@ -58,6 +58,9 @@ func ints(tag string, xs []int) hx.Sexp {
 }
 
 func modelLine(sess Session, o *Observed) string {
+	if o.Proto != "" {
+		sess.Proto = o.Proto // the negotiated protocol is the one the session was driven by
+	}
 	var ins []hx.Sexp
 	for _, in := range o.Inputs {
 		switch in.Kind {
@@ -358,6 +361,9 @@ func (h *harness) batch(sessions []Session) {
 		h.run.Case(string(b), nontrivial(o.sess, o.obs))
 		for k, v := range o.obs.Stats {
 			h.run.CountN(k, v)
+		}
+		if o.obs.Proto != "" {
+			o.sess.Proto = o.obs.Proto
 		}
 		h.run.Count("proto:" + o.sess.Proto)
 		h.run.Count("ids:" + o.sess.Proto + ":" + idSetNames[o.sess.IDSet%len(idSetNames)])
